@@ -673,8 +673,11 @@ class Builder:
         self.A = A
         self.E = E
         self.cspuz = cspuz
+        self.pre = {}  # id(AST node) -> object already built for it (shared sub-expression objects)
 
     def build(self, node):
+        if self.pre and id(node) in self.pre:
+            return self.pre[id(node)]
         t = node[0]
         E, K, A = self.E, self.K, self.A
         if t in ("b", "i"):
